@@ -37,14 +37,21 @@ def real_validate_many(items):
     return out
 
 
-def text_scenario(rng, payload, nfrag, ncuts, compress_negotiated=False, stop_after=None, ctrl_between=False):
-    """one text message `payload` in nfrag frames, stream cut into reads"""
+def text_scenario(rng, payload, nfrag, ncuts, compress_negotiated=False, stop_after=None, ctrl_between=False, compressed=False, empty_final=False):
+    """one text message `payload` in nfrag frames, stream cut into reads; `compressed`: the message is sent compressed (RSV1;
+       the fragments cut the COMPRESSED bytes); `empty_final`: an empty final fragment is appended"""
     sc = Scenario([], prate=0)
-    points = sorted(rng.sample(range(1, len(payload)), min(nfrag - 1, max(0, len(payload) - 1)))) if len(payload) > 1 else []
-    parts = cut(payload, points) or [b'']
+    wire = payload
+    if compressed:
+        compress_negotiated = True
+        wire = refcodec.DeflatePeer().compress(payload)
+    points = sorted(rng.sample(range(1, len(wire)), min(nfrag - 1, max(0, len(wire) - 1)))) if len(wire) > 1 else []
+    parts = cut(wire, points) or [b'']
+    if empty_final:
+        parts = parts + [b'']
     frames = []
     for i, part in enumerate(parts):
-        frames.append(server_frame(1 if i == 0 else 0, part, fin=1 if i == len(parts) - 1 else 0))
+        frames.append(server_frame(1 if i == 0 else 0, part, fin=1 if i == len(parts) - 1 else 0, rsv1=1 if (compressed and i == 0) else 0))
     extra = b'Sec-WebSocket-Extensions: permessage-deflate\r\n' if compress_negotiated else b''
     hs = sc.good_reply(extra)
     ctrl = [server_frame(rng.choice([9, 10]), bytes(rng.randrange(256) for _ in range(rng.randint(0, 3)))) if (ctrl_between and i < len(frames) - 1) else b'' for i in range(len(frames))]
@@ -185,6 +192,17 @@ def explore(res, tier, seed, model_ok=True):
         for nfrag, ncuts in ((1, 0), (2, 0), (1, 10 ** 6), (3, 3)):
             scs.append(text_scenario(rng, p_, nfrag, ncuts, False, ctrl_between=(nfrag > 1)))
             meta.append((p_, 'verdict', False, nfrag > 1))
+    # compressed text: the verdict is about the INFLATED bytes (valid, invalid, truncated at the very end), any fragmentation of the
+    # compressed bytes; and uncompressed messages whose last fragment is empty (a truncated tail can then only be seen by the final check)
+    for k in range(40 if tier == 'quick' else 400):
+        p_ = gen_payload(rng)
+        scs.append(text_scenario(rng, p_, rng.choice([1, 2, 3]), rng.choice([0, 1, 10 ** 6]), compressed=True, ctrl_between=rng.random() < 0.4, empty_final=rng.random() < 0.3))
+        meta.append((p_, 'verdict', True, False))
+    for t_ in (b'caf\xc3', b'\xf0\x9f\x98', b'abc \xe2\x82', b'ok', '\u20ac'.encode('utf-8'), b'\xe2\x82\xac\xe2'):
+        for comp in (False, True):
+            for nfrag in (1, 2):
+                scs.append(text_scenario(rng, t_, nfrag, 0, compressed=comp, empty_final=True))
+                meta.append((t_, 'verdict', comp, False))
     # targeted: a read that ends inside a multi-byte sequence, next read starts with the offending byte
     for lead in (b'\xc2', b'\xdf', b'\xe0', b'\xe0\xa0', b'\xe1\x80', b'\xed', b'\xed\x9f', b'\xef\xbf', b'\xf0', b'\xf0\x90', b'\xf0\x90\x80', b'\xf1\x80\x80', b'\xf4', b'\xf4\x8f\xbf'):
         for offending in (b'a', b' ', b'\xc2', b'\xff'):
@@ -238,6 +256,4 @@ def explore(res, tier, seed, model_ok=True):
 
 
 def replay(rp):
-    sc = coreutil.scenario_from_json(rp['input'] if isinstance(rp['input'], dict) else rp.get('scenario'))
-    print(world_run(sc))
-    return 0
+    return coreutil.replay_core(rp)
